@@ -255,7 +255,7 @@ def run(ctx: core.Ctx):
                 ev_big += run_events(src_a, c, ids, cid, cid, smooth=smooth, accumulate=True,
                                      src_obj=src, inv=inv, G=Gh)
             ev_big.append({"id": next(ids), "cid": cid, "beh": cid, "op": "EndHistory", "exc": "",
-                           "conc": "ident", "m": M, "unbiased": unbiased})
+                           "conc": Gh.name, "m": M, "unbiased": unbiased})      # (same batch key as the history)
     # sizes above the single-pass switch (dynamic -> single pass, Poisson multiplicities)
     for b in range(par["big"]):
         src_a = {"pos": sorted(int(x) for x in rnd.randint(0, 250, 130)),
